@@ -416,7 +416,7 @@ func TestVerifC11(t *testing.T) {
 		c11EnumTwoTasks(rec, 2, []int64{0, 1}, []int64{1, 2}, false, false)
 	}
 	enum := rec.Segments()
-	n := 3000
+	n := 2000
 	if vu.Thorough() {
 		n = 40000
 	}
